@@ -309,6 +309,24 @@ func validPoints(c *mon.Ctx, r *grp, rng *gen.Rng) (pts []namedPt) {
 			add("special:"+e.n, p, r.fm.InSubgroup(p))
 		}
 	}
+	// over an extension field: points whose y lies in the base field (only the lowest coordinate is set), both signs.
+	// The sign flag of such a point is decided by the tie-break of the lexicographic order; a curve point with a given
+	// y exists for about one value in three, so small values are tried until one is found.
+	if d > 1 {
+		tries := c.Pick(6, 14)
+		if d > 2 {
+			tries = c.Pick(3, 8)
+		}
+		for v, got := int64(2), 0; v < int64(2+tries) && got < 1; v++ {
+			y := F.Zero()
+			y[0].SetInt64(v)
+			if ps := ocodec.PointsWithY(C, y); len(ps) > 0 {
+				got++
+				add("special:y-in-base-field", ps[0], r.fm.InSubgroup(ps[0]))
+				add("special:y-in-base-field(negated)", C.Neg(ps[0]), r.fm.InSubgroup(ps[0]))
+			}
+		}
+	}
 	// points of order 3 on the j = 0 curves (a = 0): x = 0 when b is a square, and the roots of x^3 = -4b
 	if F.IsZero(C.A) {
 		var xs []ofield.El
